@@ -158,6 +158,11 @@ impl ObjectReceiver {
         self.init_object_writer(now);
         self.push_from_cache(now);
 
+        if self.state != State::Receiving {
+            // The object writer refused the object or the cached packets ended the object
+            return;
+        }
+
         if self.oti.is_none() {
             self.cache(pkt)
                 .unwrap_or_else(|_| self.error("Fail to push pkt to cache", now, false));
